@@ -272,35 +272,38 @@ type cmap4Iter struct {
 }
 
 func (it *cmap4Iter) Next() bool {
-	return it.pos1 < len(it.data)
+	// skip the characters with a zero glyph index, which are not mapped (see Lookup)
+	for it.pos1 < len(it.data) {
+		entry := it.data[it.pos1]
+		if entry.indexes == nil || entry.indexes[it.pos2] != 0 {
+			return true
+		}
+		it.advance(entry)
+	}
+	return false
+}
+
+// advance moves to the next character
+func (it *cmap4Iter) advance(entry cmapEntry16) {
+	if uint16(it.pos2) == entry.end-entry.start {
+		// we have read the last glyph in this part
+		it.pos2 = 0
+		it.pos1++
+	} else {
+		it.pos2++
+	}
 }
 
 func (it *cmap4Iter) Char() (r rune, gy GID) {
 	entry := it.data[it.pos1]
+	r = rune(it.pos2 + int(entry.start))
 	if entry.indexes == nil {
-		r = rune(it.pos2 + int(entry.start))
 		gy = GID(uint16(it.pos2) + entry.start + entry.delta)
-		if uint16(it.pos2) == entry.end-entry.start {
-			// we have read the last glyph in this part
-			it.pos2 = 0
-			it.pos1++
-		} else {
-			it.pos2++
-		}
 	} else { // pos2 is the array index
-		r = rune(it.pos2) + rune(entry.start)
-		gy = GID(entry.indexes[it.pos2])
-		if gy != 0 {
-			gy += GID(entry.delta)
-		}
-		if it.pos2 == len(entry.indexes)-1 {
-			// we have read the last glyph in this part
-			it.pos2 = 0
-			it.pos1++
-		} else {
-			it.pos2++
-		}
+		// arithmetic modulo 0xFFFF, as in Lookup
+		gy = GID(uint16(entry.indexes[it.pos2]) + entry.delta)
 	}
+	it.advance(entry)
 
 	return r, gy
 }
@@ -662,15 +665,28 @@ func (cm cmap4) RuneRanges(dst [][2]rune) [][2]rune {
 	}
 	dst = dst[:0]
 	for _, e := range cm {
-		start, end := rune(e.start), rune(e.end)
-		if L := len(dst); L != 0 && dst[L-1][1] == start {
-			// grow the previous range
-			dst[L-1][1] = end
-		} else {
-			dst = append(dst, [2]rune{start, end})
+		if e.indexes == nil {
+			dst = appendRuneRange(dst, rune(e.start), rune(e.end))
+			continue
+		}
+		// only keep the runes actually mapped to a glyph (see Lookup)
+		for i, glyph := range e.indexes {
+			if glyph != 0 {
+				r := rune(e.start) + rune(i)
+				dst = appendRuneRange(dst, r, r)
+			}
 		}
 	}
 	return dst
+}
+
+// appendRuneRange adds [start, end] to dst, growing the last range if possible
+func appendRuneRange(dst [][2]rune, start, end rune) [][2]rune {
+	if L := len(dst); L != 0 && dst[L-1][1]+1 == start {
+		dst[L-1][1] = end
+		return dst
+	}
+	return append(dst, [2]rune{start, end})
 }
 
 func (cm *cmap6or10) RuneRanges(dst [][2]rune) [][2]rune {
